@@ -157,6 +157,10 @@ write_prototype_for(ostream &out, InterfaceMaker::Function *func) {
 
     if (output_function_names) {
       out << "EXPORT_FUNC ";
+    } else {
+      // If we're not saving the function names, the definition is static, so
+      // the prototype must be as well.
+      out << "static ";
     }
     write_function_header(out, func, remap, false);
     out << ";\n";
